@@ -378,11 +378,7 @@ def block_diagonalize(
         operators = list(
             set().union(*(find_operators(block) for block in nonzero_blocks))
         )
-        operators = tuple(
-            sorted(
-                operators, key=lambda op: (generator_types.index(type(op)), str(op.name))
-            )
-        )
+        operators = tuple(sorted(operators, key=_operator_order))
     else:
         operators = ()
 
@@ -400,8 +396,15 @@ def block_diagonalize(
                 result = sympy.Matrix([[result]])
 
             if isinstance(result, sympy.Matrix):
+                # A perturbation may contain operators that do not appear in H_0.
+                extra = set(find_operators(result)) - set(operators)
+                all_operators = (
+                    tuple(sorted({*operators, *extra}, key=_operator_order))
+                    if extra
+                    else operators
+                )
                 return result.applyfunc(
-                    lambda x: NumberOrderedForm.from_expr(x, operators)
+                    lambda x: NumberOrderedForm.from_expr(x, all_operators)
                 )
 
         H = BlockSeries(
@@ -1472,6 +1475,11 @@ def _sympy_to_BlockSeries(
         dimension_names=symbols,
     )
     return op
+
+
+def _operator_order(op: sympy.Expr) -> tuple[int, str]:
+    """Sorting key that defines the order of operators in number ordered forms."""
+    return (generator_types.index(type(op)), str(op.name))
 
 
 def _is_not_hermitian(expr: sympy.Expr | sympy.MatrixBase) -> bool:
